@@ -278,14 +278,15 @@ pub fn def() -> CheckDef {
             batch(Mux { name: "mux-schedules", faults: true, max_chunks: 200, kernel: false }, 3_000, 250_000, true),
             batch(Mux { name: "mux-kernel-unix-socketpair", faults: true, max_chunks: 200, kernel: true }, 1_500, 100_000, true),
         ],
-        rule: "two real Plexers joined by two seeded in-memory pipes; 1..6 agents with seeded protocol ids (0, 0x7fff, ids differing only in bit 15), roles and directions, 0..200 uniquely stamped chunks each of sizes {0,1,2,small,65534,65535,uniform}; schedules = seeded stalls of every pipe poll and task poll, simulated-time delays, short reads, partial writes, pipe capacities down to 9 bytes (back-pressure); half the runs carry traffic for an unsubscribed protocol; oracle: every endpoint receives exactly its counterpart's chunks, in order, nothing else, and the run quiesces before the simulated-time watchdog; non-trivial = completed run with a non-neutral choice; distinct = distinct event traces",
-        real: vec!["pallas_network::multiplexer::{Plexer, Muxer, Demuxer, AgentChannel, Header}", "tokio mpsc, time, current-thread scheduler (paused clock)"],
-        stub: vec!["the socket: Bearer::Sim over SimPipe (hook H1)"],
+        rule: "two real Plexers joined by two seeded in-memory pipes; 1..6 agents with seeded protocol ids (0, 0x7fff, ids differing only in bit 15), roles and directions, 0..200 uniquely stamped chunks each of sizes {0,1,2,small,65534,65535,uniform}; schedules = seeded stalls of every pipe poll and task poll, simulated-time delays, short reads, partial writes, pipe capacities down to 9 bytes (back-pressure); half the runs carry traffic for an unsubscribed protocol; oracle: every endpoint receives exactly its counterpart's chunks, in order, nothing else, and the run quiesces before the simulated-time watchdog; a third batch joins the two plexers by a kernel Unix socketpair instead (real Bearer::Unix arms; seeded SO_SNDBUF/SO_RCVBUF from the kernel minimum of about 4.6 kB to the default, so segments larger than the free buffer space are taken and returned in pieces); non-trivial = completed run with a non-neutral choice; distinct = distinct event traces",
+        real: vec!["pallas_network::multiplexer::{Plexer, Muxer, Demuxer, AgentChannel, Header}", "tokio mpsc, time, current-thread scheduler (paused clock)", "BearerReadHalf::Unix / BearerWriteHalf::Unix over a kernel socketpair (batch mux-kernel-unix-socketpair)"],
+        stub: vec!["the socket: Bearer::Sim over SimPipe (hook H1) in the two simulated-pipe batches; the Tcp arms of Bearer are never run"],
         assumptions: vec![
             "interleavings are explored at await granularity on one thread; memory-model reorderings of a multi-threaded runtime are out of reach (DESIGN 1.3)",
             "no loss or corruption is injected: the statement assumes a connected pair",
+            "in the kernel-socketpair batch the kernel's buffer accounting is outside the simulator; it is a function of this thread's syscall sequence on two sockets private to the run (determinism observed by the double-run guard, not constructed)",
         ],
-        required: vec!["fault.stall", "fault.short_read", "fault.partial_write", "fault.delay", "fault.task_stall", "probe.backpressure_timeout", "probe.unsubscribed_chunks_sent", "probe.chunks_delivered"],
+        required: vec!["fault.stall", "fault.short_read", "fault.partial_write", "fault.delay", "fault.task_stall", "probe.backpressure_timeout", "probe.unsubscribed_chunks_sent", "probe.chunks_delivered", "fault.kernel_short_write_forced", "fault.kernel_min_sndbuf", "fault.kernel_min_rcvbuf"],
         env_nondeterminism: "task interleaving (seeded stalls at every pipe/task poll), simulated-time delays, read/write granularity, back-pressure; tokio's scheduler RNG seeded per run",
     }
 }
